@@ -18,7 +18,8 @@
 //	          {"k":"ct","states":[s...],"neg":b}                     states incl. the virtual "DNAT"
 //	          {"k":"addrtype","side":"src"|"dst","type":"LOCAL","neg":b,"limitOut":b}
 //	          {"k":"icmp","v":4|6,"type":t,"code":c|-1,"neg":b}      iptables icmp/icmp6 match (one negation for the pair)
-//	          {"k":"icmpf","v":4|6,"f":"type"|"code","val":n,"neg":b}  nftables payload compare (implies l4proto)
+//	          {"k":"icmpf","v":4|6,"f":"type"|"code","val":n,"neg":b,"bare":b}  nftables payload compare (implies
+//	                                                                 l4proto); bare: field written without the icmp keyword
 //	          {"k":"rpf","neg":b}                                    reverse-path check *failed*
 //	          {"k":"ipvs","neg":b}
 //	action  : {"k":"accept"|"drop"|"reject"|"return"|"none"|"notrack"|"offload"|"log"}
